@@ -246,6 +246,9 @@ func (e *fnEnc) run() (err error) {
 		if e.ctr.Options["nocheck"] == "" || !strings.Contains(e.ctr.Options["nocheck"], "frame") {
 			e.frameObligations(st, exitReach)
 		}
+		for i, cl := range e.ctr.Get("always") {
+			e.obligationNoAssume("always", clauseLabel(cl, i)+":exit", exitReach, e.evalBool(cl.E, env), cl.Text, cl.Line)
+		}
 		var cases []string
 		if len(e.retSt) > 8 {
 			for _, rp := range e.retSt {
@@ -423,7 +426,13 @@ func (e *fnEnc) encodeBlock(b *ssa.BasicBlock) {
 		// havoc
 		if pi.pass == 1 || pi.loopMods[li.ord]["*"] != "" {
 			pi.epoch++
+			old := st
 			st = &state{m: map[string]Term{}, alloc: st.alloc}
+			for k, v := range old.m {
+				if strings.HasPrefix(k, "Ghost.") {
+					st.m[k] = v
+				}
+			}
 			st.m["!epoch"] = T(SInt, fmt.Sprint(pi.epoch))
 		} else {
 			var comps []string
@@ -601,6 +610,10 @@ func (e *fnEnc) heapGetEpoch(st *state, comp string, s Sort) Term {
 	if t, ok := st.m["!epoch"]; ok {
 		ep = t.S
 	}
+	if strings.HasPrefix(comp, "Ghost.") {
+		ep = "0" // ghost state is unaffected by heap havoc
+		return e.declare(comp+"@0", s)
+	}
 	name := comp + "@" + ep
 	first := !e.declSeen[sym(name)]
 	t := e.declare(name, s)
@@ -624,6 +637,9 @@ func (e *fnEnc) havocAll(st *state) {
 	pi := e.pi()
 	pi.epoch++
 	for k := range st.m {
+		if strings.HasPrefix(k, "Ghost.") {
+			continue // ghost state is not program memory
+		}
 		delete(st.m, k)
 	}
 	st.m["!epoch"] = T(SInt, fmt.Sprint(pi.epoch))
